@@ -14,7 +14,7 @@ import bb_hub as H
 import bb_gate as G
 
 PATHS = ["f", "g", "d/h"]
-CONTENTS = [b"alpha " * 200, b"BETA" * 4000, b"gamma\n", b"", b"delta" * 9000, b"e"]
+CONTENTS = [b"alpha " * 200, b"BETA" * 4000, b"gamma\n", b"", b"delta" * 9000, b"e", b"zero-tailed" + b"\x00" * (262144 * 2 - 11)]
 
 
 class Server:
@@ -104,8 +104,12 @@ def gen_ops(rng, tree, pid, path=None):
             # a path that is exactly the conflict-copy name some Put of this run may be landed on (D13): what a client
             # commits there is committed content like any other and must not be replaced by a conflict copy
             p = f"{rng.pick(PATHS)}.conflict-{blake3_hex([rng.pick(CONTENTS)])[0][:12]}"
+        key = p                  # the hub file the request names (normalised), for the bookkeeping of this harness
+        if rng.coin(1, 6):
+            # another spelling of the same hub file (`./f`, `d//h`, `d/./h`) on the wire: compare-and-swap is per FILE, not per spelling
+            p = rng.pick(["./" + p, p.replace("/", "//"), p.replace("/", "/./"), "./" + p.replace("/", "//")])
         r = rng.below(10)
-        cur = tree.get(p)
+        cur = tree.get(key)
         curh = bytes.fromhex(blake3_hex([cur])[0]) if cur is not None else None
         if r < 6:
             c = rng.pick(CONTENTS)
@@ -121,15 +125,15 @@ def gen_ops(rng, tree, pid, path=None):
             for x in cuts + [len(c)]:
                 pieces.append(c[prev:x]); prev = x
             pieces[0] = H.frame(H.req_put(p, exp, len(c), h)) + pieces[0]
-            ops.append({"kind": "put", "path": p, "content": c, "variant": variant, "pieces": pieces, "exp": exp, "hash": h,
+            ops.append({"kind": "put", "path": key, "wire": p, "content": c, "variant": variant, "pieces": pieces, "exp": exp, "hash": h,
                         "bytes": H.frame(H.req_put(p, exp, len(c), h)) + c, "desc": f"put {p} {len(c)}B exp={'cur' if exp == curh else ('none' if exp is None else 'stale')} {variant} in {len(pieces)} piece(s)"})
         elif r < 8:
             exp = curh if rng.coin(2, 3) else (None if rng.coin(1, 2) else bytes(rng.bytes(32)))
             b = H.frame(H.req_delete(p, exp))
-            ops.append({"kind": "delete", "path": p, "pieces": [b], "bytes": b, "exp": exp, "desc": f"delete {p} exp={'cur' if exp == curh else ('none' if exp is None else 'stale')}"})
+            ops.append({"kind": "delete", "path": key, "wire": p, "pieces": [b], "bytes": b, "exp": exp, "desc": f"delete {p} exp={'cur' if exp == curh else ('none' if exp is None else 'stale')}"})
         else:
             b = H.frame(H.req_get(p))
-            ops.append({"kind": "get", "path": p, "pieces": [b], "bytes": b, "desc": f"get {p}"})
+            ops.append({"kind": "get", "path": key, "wire": p, "pieces": [b], "bytes": b, "desc": f"get {p}"})
     return ops
 
 
@@ -153,7 +157,8 @@ class HashCodes:
 
 def solo_conformance(op, pr, pre_tree, rep):
     """(model query or None, normalised real call tokens, python-side expectation or None, report)"""
-    p = op["path"]
+    key = op["path"]
+    p = op.get("wire", key)          # the server joins the path as spelled on the wire
     pid = pr.p.pid
     tmp = f"{p}.{pid}.copia-tmp"
     toks = []
@@ -193,7 +198,7 @@ def solo_conformance(op, pr, pre_tree, rep):
         toks.append(t)
     real = ",".join(toks) if toks else "-"
     hc = HASHCODES
-    cur = pre_tree.get(p)
+    cur = pre_tree.get(key)
     curh = bytes.fromhex(blake3_hex([cur])[0]) if cur is not None else None
     r = dict(rep, request=op["desc"], server_calls=[c.replace(str(pid), "<pid>") for c in pr.trace][:24])
     if op["kind"] == "put":
@@ -372,6 +377,18 @@ def run(pid, tier, seed, rundir, model_run):
                 clients = [[gen_ops(rng, tree, pid, path=hot)[0]] for _ in range(nclients)]
                 b = H.frame(H.req_get(hot))
                 clients[0] = [{"kind": "get", "path": hot, "pieces": [b], "bytes": b, "desc": f"get {hot}"}]
+            list_vs_commits = (gi == 4 and pid == "C03")      # linearizability of List is C03's claim, not C10's
+            if list_vs_commits:
+                # List is a walk over the tree, file by file, outside the commit lock. Against a session that commits f and THEN g,
+                # every placement of that whole session inside the List's call sequence (D11: the reply can show the OLD f and the NEW g)
+                tree = {"f": CONTENTS[0], "g": CONTENTS[2]}
+                def put_at(p_, c):
+                    ch_ = bytes.fromhex(blake3_hex([tree[p_]])[0]); h_ = bytes.fromhex(blake3_hex([c])[0])
+                    b_ = H.frame(H.req_put(p_, ch_, len(c), h_)) + c
+                    return {"kind": "put", "path": p_, "content": c, "variant": "ok", "pieces": [b_], "exp": ch_, "hash": h_, "bytes": b_, "desc": f"put {p_} {len(c)}B exp=cur ok in 1 piece(s)"}
+                bl = H.frame(H.req_list())
+                clients = [[{"kind": "list", "path": "", "pieces": [bl], "bytes": bl, "desc": "list"}], [put_at("f", CONTENTS[1]), put_at("g", CONTENTS[5])]]
+                nclients = 2
             third_party = (gi == 2)
             if third_party:
                 # two writers with the same (current) expectation on one path and a third session that merely starts and
@@ -379,13 +396,14 @@ def run(pid, tier, seed, rundir, model_run):
                 # the first writer's call sequence (what a session does when it ENDS is a scheduling point too)
                 tree.setdefault(hot, rng.pick(CONTENTS))
                 curh_ = bytes.fromhex(blake3_hex([tree[hot]])[0])
-                def put_cur(c):
+                def put_cur(c, wire=None):
+                    wire = wire or hot
                     h_ = bytes.fromhex(blake3_hex([c])[0])
-                    b_ = H.frame(H.req_put(hot, curh_, len(c), h_)) + c
-                    return {"kind": "put", "path": hot, "content": c, "variant": "ok", "pieces": [b_], "exp": curh_, "hash": h_, "bytes": b_, "desc": f"put {hot} {len(c)}B exp=cur ok in 1 piece(s)"}
+                    b_ = H.frame(H.req_put(wire, curh_, len(c), h_)) + c
+                    return {"kind": "put", "path": hot, "wire": wire, "content": c, "variant": "ok", "pieces": [b_], "exp": curh_, "hash": h_, "bytes": b_, "desc": f"put {wire} {len(c)}B exp=cur ok in 1 piece(s)"}
                 cs_ = [c for c in CONTENTS if c != tree[hot]]
                 bg = H.frame(H.req_get(hot))
-                clients = [[put_cur(cs_[0])], [{"kind": "get", "path": hot, "pieces": [bg], "bytes": bg, "desc": f"get {hot}"}], [put_cur(cs_[1 % len(cs_)])]]
+                clients = [[put_cur(cs_[0])], [{"kind": "get", "path": hot, "pieces": [bg], "bytes": bg, "desc": f"get {hot}"}], [put_cur(cs_[1 % len(cs_)], "./" + hot.replace("/", "//"))]]      # the second writer spells the same file differently
                 nclients = 3
             # make them collide: most requests of a configuration address the same path
             allowed = set(tree.values()) | {op["content"] for cl in clients for op in cl if op["kind"] == "put" and op["variant"] == "ok"}
@@ -411,6 +429,9 @@ def run(pid, tier, seed, rundir, model_run):
                                 one.append([(a, k)] + [(c, 99) for c in order] + [(a, 99)])
                     if tier != "thorough" and len(one) > nsched * 2:
                         one = [one[i] for i in sorted({rng.below(len(one)) for _ in range(nsched * 2)})]
+                    if list_vs_commits:
+                        for k1 in range(1, max(2, lens.get(0, 10)) + 1):
+                            one.append([(0, k1), (1, 99), (0, 99)])
                     if third_party:
                         n0 = max(2, lens.get(0, 8))
                         for k1 in range(1, n0):
@@ -431,7 +452,7 @@ def run(pid, tier, seed, rundir, model_run):
                     sb.write_tree(root, tree)
                     os.makedirs(root, exist_ok=True)
                     rd = sb.path("gate"); os.makedirs(rd, exist_ok=True)
-                    reqs = [H.MAGIC + cl[0]["bytes"] for cl in clients]
+                    reqs = [H.MAGIC + b"".join(op_["bytes"] for op_ in cl) for cl in clients]
                     run_ = G.GatedRun(CLI_BIN, sb.env, sb.dir, root, reqs, rd)
                     rep = {"initial": sorted(tree), "clients": [[op["desc"] for op in cl] for cl in clients], "gated": True, "policy": pol, "kill_at": kill_at}
                     bad_steps = []
@@ -456,6 +477,8 @@ def run(pid, tier, seed, rundir, model_run):
                         # trace conformance: a request that ran alone must make exactly the calls of the Lean
                         # transition system's solo execution (Model/HubTrace.soloPut / soloDelete)
                         for pr in run_.procs:
+                            if len(clients[pr.idx]) != 1 or clients[pr.idx][0]["kind"] == "list":
+                                continue
                             op = clients[pr.idx][0]
                             pre_tree = tree if not pr.first_go else snaps.get(pr.first_go, tree)
                             solo_traces.append(solo_conformance(op, pr, pre_tree, rep))
@@ -467,13 +490,16 @@ def run(pid, tier, seed, rundir, model_run):
                     opres = {}
                     for pr in run_.procs:
                         toks = parse_replies(open(pr.out, "rb").read())
-                        reply = toks[0] if toks and not pr.killed else None
-                        if len(toks) > 1:
-                            res["violations"].append(("extra-reply", f"server {pr.idx} wrote {len(toks)} replies to one request", rep))
-                        if reply is None and not pr.killed and not run_.stuck:
-                            res["violations"].append(("no-reply", f"client {pr.idx} got no reply to {clients[pr.idx][0]['desc']} (exit {pr.p.returncode}, stderr {getattr(pr, 'stderr', '')[-200:]})", rep))
+                        nreq = len(clients[pr.idx])
+                        if len(toks) > nreq:
+                            res["violations"].append(("extra-reply", f"server {pr.idx} wrote {len(toks)} replies to {nreq} request(s)", rep))
                         start = pr.first_go if pr.first_go is not None else (pr.end if pr.end is not None else 0)
-                        opres[(pr.idx, 0)] = {"start": start, "end": None if pr.killed else pr.end, "reply": reply, "killed": pr.killed}
+                        for oi_ in range(nreq):
+                            reply = toks[oi_] if oi_ < len(toks) and not pr.killed else None
+                            if reply is None and not pr.killed and not run_.stuck:
+                                res["violations"].append(("no-reply", f"client {pr.idx} got no reply to {clients[pr.idx][oi_]['desc']} (exit {pr.p.returncode}, stderr {getattr(pr, 'stderr', '')[-200:]})", rep))
+                            # the requests of one session share the session's interval; their order is the program order
+                            opres[(pr.idx, oi_)] = {"start": start, "end": None if pr.killed else pr.end, "reply": reply, "killed": pr.killed}
                         if pr.killed:
                             count("gated/kills")
                     final = nonstaging(H.hub_tree(root))
@@ -522,14 +548,34 @@ def run(pid, tier, seed, rundir, model_run):
                 ok = True
                 break
         if not ok:
+            # would it be linearizable if the List replies could be anything? then the one thing wrong is a List reply
+            # that is not a snapshot of any single moment (D11, known finding)
+            list_keys = {k for k in info["observed"] if (info["observed"][k] or "").startswith("fps:")}
+            ok_wo_list = False
+            if list_keys:
+                for perm, mo in zip(info["perms"], outs):
+                    mm = __import__("re").match(r"exit=(\S+) maxalloc=(\d+) replies=(.*) tree=(\S+)$", mo or "")
+                    if not mm:
+                        continue
+                    reps_m = mm.group(3).split("|") if mm.group(3) else []
+                    if len(reps_m) != len(perm):
+                        continue
+                    same = all(k in list_keys or info["observed"].get(k, None) in (None, r) for k, r in zip(perm, reps_m)) and all(k in perm for k in info["observed"])
+                    if same and mm.group(4) == info["final"]:
+                        ok_wo_list = True
+                        break
             nlin += 1
+            if ok_wo_list:
+                res["violations"].append(("list-reply-not-a-snapshot", "a List reply shows a combination of file versions that the hub never held at any single moment (everything else is linearizable)",
+                                          dict(info["rep"], observed={f"{k[0]}.{k[1]}": v for k, v in info["observed"].items()}, final=info["final"])))
+                continue
             key = "not-linearizable"
             res["violations"].append((key, "replies + final tree equal no one-at-a-time execution of the same requests that respects real-time order (checked against the sequential Lean hub model)",
                                       dict(info["rep"], observed={f"{k[0]}.{k[1]}": v for k, v in info["observed"].items()}, final=info["final"], candidate_orders=len(info["perms"]))))
     res.update(evaluations=len(case_info) + len(solo_traces), distinct_nontrivial=len(case_info), n_disagreements=nsolo_dis, n_oracle_failures=len(res["violations"]),
                traces_validated=steps_checked,
                rule="2–3 clients, each with its own real server process on one root, 1–2 requests each over {Put (content in 1–3 pieces, expected = current / none / stale"
-                    + (", wrong hash" if pid == "C10" else "") + "), Delete, Get} on 3 shared paths; a random interleaving at piece granularity (a whole request of one client can run while another's Put is half-streamed)"
+                    + (", wrong hash" if pid == "C10" else "") + "), Delete, Get, List} on 3 shared paths; a random interleaving at piece granularity (a whole request of one client can run while another's Put is half-streamed)"
                     + ("; a server is SIGKILLed at a random step in a third of the cases" if pid == "C10" else "")
                     + ". After every step the tree is read (C10 predicate); at the end replies + tree are checked for linearizability by running every real-time-compatible order through the sequential Lean model."
                     " Tier 2 (gated): 2–3 server processes with ONE request each run under an LD_PRELOAD gate that makes every file-system call on the tree (open/create/truncate, write, flock, rename, unlink) a scheduling point; "
